@@ -118,10 +118,81 @@ package core
 //@   ensures result != nil ==> fresh(result) && result.ProveValue != nil
 //@   modifies nothing
 
-//@ func blockChain.insertBlock
+// Block insertion is a write-ahead protocol (C05): the add-intent mark is written first, every index / state /
+// head write of the insertion happens under the mark, and the mark is erased only after the head record has
+// moved - so a process death after any single write leaves a mark that the restart repairs. Ghost addmark: the
+// intent mark is present in the hash store; ghost headmoved: the persistent head record points at the new block.
+// The store writes themselves (LevelDB, state commit) are trusted stubs that demand the mark.
+//@ ghost addmark Bool
+//@ ghost headmoved Bool
+
+//@ func blockChain.markAddBlock
 //@   option trusted
+//@   ensures ghost(addmark) == (old(ghost(addmark)) || result)
+//@   modifies ghost(addmark)
+
+//@ func blockChain.eraseAddBlockMark
+//@   option trusted
+//@   requires [complete] ghost(headmoved)
+//@   ensures !ghost(addmark)
+//@   modifies ghost(addmark)
+
+//@ func blockChain.saveBlockByHash
+//@   option trusted
+//@   requires [marked] ghost(addmark)
+//@   modifies nothing
+
+//@ func blockChain.saveBlockByHeight
+//@   option trusted
+//@   requires [marked] ghost(addmark)
+//@   modifies nothing
+
+//@ func blockChain.saveStates
+//@   option trusted
+//@   requires [marked] ghost(addmark)
+//@   modifies ghost(stver)
+
+//@ func blockChain.updateVerifyHash
+//@   option trusted
+//@   requires [marked] ghost(addmark)
+//@   modifies nothing
+
+//@ func blockChain.updateTxPool
+//@   option trusted
+//@   modifies nothing
+
+//@ func blockChain.updateLastBlock
+//@   option trusted
+//@   requires [marked] ghost(addmark)
+//@   requires block != nil
+//@   ensures result ==> chain.latestBlock == block.Header && ghost(headmoved)
+//@   ensures !result ==> chain.latestBlock == old(chain.latestBlock) && ghost(headmoved) == old(ghost(headmoved))
+//@   modifies chain.latestBlock, chain.requestIds, ghost(headmoved)
+
+//@ func blockChain.successOnChainCallBack
+//@   option trusted
+//@   modifies nothing
+
+//@ func ext_marshalBlock
+//@   option trusted extern=com.tuntun.rangers/node/src/middleware/types.MarshalBlock
+//@   modifies nothing
+
+//@ func ext_marshalBlockHeader
+//@   option trusted extern=com.tuntun.rangers/node/src/middleware/types.MarshalBlockHeader
+//@   modifies nothing
+
+//@ func ext_setBlockHeight
+//@   option trusted extern=com.tuntun.rangers/node/src/common.SetBlockHeight
+//@   modifies nothing
+
+//@ func blockChain.insertBlock
+//@   property C05
 //@   requires chain != nil && remoteBlock != nil
-//@   modifies chain.latestBlock
+//@   requires [env!init] logger != nil && chain.topBlocks != nil
+//@   requires [wf] remoteBlock.Header != nil
+//@   ensures [done]   result0 == types.AddBlockSucc ==> !ghost(addmark) && ghost(headmoved) && chain.latestBlock == remoteBlock.Header
+//@   ensures [failed] result0 != types.AddBlockSucc ==> ghost(headmoved) == old(ghost(headmoved)) && chain.latestBlock == old(chain.latestBlock)
+//@   modifies chain.latestBlock, chain.requestIds, ghost(addmark), ghost(headmoved), ghost(stver)
 
 //@ func blockChain.removeFromCommonAncestor
 //@   option trusted
